@@ -18,7 +18,7 @@ AX = ["i", "j", "k", "l"]
 
 # ------------------------------------------------------------------ generation
 def gen_case(rng, max_funcs=4, allow_internal=True, allow_reduce=True, allow_nomapspec=True,
-             allow_tuple=True, max_roots=3, allow_autogen=False, sizes=None, allow_bound=False, allow_renames=False):
+             allow_tuple=True, max_roots=3, allow_autogen=False, sizes=None, allow_bound=False, allow_renames=False, allow_int_arrays=False):
     sizes = sizes or {a: rng.randint(1, 3) for a in AX}
     arrays = {}  # name -> tuple of axis names (fixed by producer)
     roots = {}
@@ -28,6 +28,8 @@ def gen_case(rng, max_funcs=4, allow_internal=True, allow_reduce=True, allow_nom
         name = f"x{r}"
         arrays[name] = axes
         kind = "scalar" if rank == 0 else ("list" if rank == 1 and rng.random() < 0.5 else "ndarray")
+        if kind == "ndarray" and allow_int_arrays and rng.random() < 0.4:
+            kind = "ndarray-int"  # a numeric (int64) array instead of an object array of strings
         roots[name] = {"axes": list(axes), "kind": kind}
     funcs = []
     for fi in range(rng.randint(1, max_funcs)):
@@ -134,11 +136,33 @@ def make_inputs(case):
             inputs[name] = f"{name}v"
             continue
         shape = tuple(case["sizes"][a] for a in axes)
+        if r["kind"] == "ndarray-int":
+            base = 1000 * (1 + int(name[1:]) if name[1:].isdigit() else 7)
+            inputs[name] = (base + np.arange(int(np.prod(shape)), dtype=np.int64)).reshape(shape)
+            continue
         arr = np.empty(shape, dtype=object)
         for idx in np.ndindex(*shape):
             arr[idx] = name + "<" + ".".join(map(str, idx)) + ">"
         inputs[name] = arr.tolist() if r["kind"] == "list" else arr
     return inputs
+
+
+def variant_inputs(inputs, tag="~2"):
+    """Same shapes and kinds, other values (strings get a suffix, numbers an offset)."""
+    def ren(x):
+        if isinstance(x, str):
+            return x + tag
+        if isinstance(x, (int, np.integer)):
+            return x + 500
+        if isinstance(x, list):
+            return [ren(y) for y in x]
+        if isinstance(x, np.ndarray) and x.dtype != object:
+            return x + 500
+        a = np.empty(x.shape, dtype=object)
+        for idx in np.ndindex(*x.shape):
+            a[idx] = ren(x[idx])
+        return a
+    return {k: ren(x) for k, x in inputs.items()}
 
 
 def array_axes(case):
